@@ -87,6 +87,22 @@ Proof. split; [exact same_contents_refl|]. split; [exact same_contents_sym|exact
 Theorem C11_same_contentsb_iff : forall a b, same_contentsb a b = true <-> same_contents a b.
 Proof. exact same_contentsb_iff. Qed.
 
+(* a serialized Response (inside an event or a view model) writes its headers in an order that does
+   not depend on the oracle, and responses with equal contents serialize alike *)
+Theorem C11_response_serialization_order_independent :
+  forall o1 o2 r, (forall m, Permutation (o1 m) m) -> (forall m, Permutation (o2 m) m) ->
+    NoDup (map fst (p_headers r)) -> resp_wire_headers o1 r = resp_wire_headers o2 r.
+Proof. exact resp_wire_order_free. Qed.
+Theorem C11_equal_responses_serialize_alike :
+  forall o1 o2 a b, (forall m, Permutation (o1 m) m) -> (forall m, Permutation (o2 m) m) ->
+    NoDup (map fst (p_headers a)) -> NoDup (map fst (p_headers b)) ->
+    same_contents a b -> resp_wire_headers o1 a = resp_wire_headers o2 b.
+Proof. exact resp_wire_same_contents. Qed.
+Theorem C11_response_serialization_before_fix_refuted :
+  let r := resp0 [([97], [[49]]); ([98], [[50]])] in
+  resp_wire_headers_before_fix (fun m => m) r <> resp_wire_headers_before_fix (@rev _) r.
+Proof. exact resp_wire_before_fix_differs. Qed.
+
 (* before the fix: commit (header iterators zipped) both directions failed *)
 Theorem C11_response_eq_before_fix_refuted :
   (resp_eq_before_fix (fun m => m) (fun m => m) (resp0 []) (resp0 [([97], [[98]])]) = true /\
